@@ -1,3 +1,172 @@
 package main
 
-func genSchemaFamily(c *Ctx, filter func(string) bool) {}
+import (
+	"fmt"
+	"math/rand"
+	"strings"
+)
+
+// Schema family S (DESIGN 3.2): component schemas built by structural recursion:
+// object/array/primitive/any x required x nullable x additionalProperties
+// {none,true,schema} x allOf orders x oneOf +-discriminator x ref/inline; each
+// schema is used as a request body and as a response body.
+
+type sNode struct {
+	YAML string // schema body, indented by 0 (lines), without leading key
+}
+
+var sPrims = []string{
+	"type: string",
+	"type: integer",
+	"type: integer\nformat: int32",
+	"type: integer\nformat: int64",
+	"type: number",
+	"type: number\nformat: float",
+	"type: boolean",
+	"type: string\nformat: date-time",
+}
+
+func indent(s string, n int) string {
+	pad := strings.Repeat(" ", n)
+	lines := strings.Split(strings.TrimRight(s, "\n"), "\n")
+	for i := range lines {
+		lines[i] = pad + lines[i]
+	}
+	return strings.Join(lines, "\n") + "\n"
+}
+
+type sGen struct {
+	rng     *rand.Rand
+	schemas []string // names defined so far (object schemas usable as $ref)
+	defs    map[string]string
+	order   []string
+	safe    bool // avoid combinations known not to compile on the pinned tree
+}
+
+func (g *sGen) prim() string { return sPrims[g.rng.Intn(len(sPrims))] }
+
+// property value schema (inline or $ref), depth-limited
+func (g *sGen) value(depth int) string {
+	r := g.rng.Intn(10)
+	switch {
+	case r < 5 || depth <= 0:
+		p := g.prim()
+		if g.rng.Intn(4) == 0 && !(g.safe && !strings.Contains(p, "type: string")) {
+			p += "\nnullable: true"
+		}
+		return p
+	case r < 6 && len(g.schemas) > 0:
+		return "$ref: '#/components/schemas/" + g.schemas[g.rng.Intn(len(g.schemas))] + "'"
+	case r < 8:
+		return "type: array\nitems:\n" + indent(g.arrayItem(depth-1), 2)
+	case r < 9:
+		return g.object(depth-1, false)
+	default:
+		return "{}" // any
+	}
+}
+
+func (g *sGen) arrayItem(depth int) string {
+	if len(g.schemas) > 0 && g.rng.Intn(3) == 0 {
+		return "$ref: '#/components/schemas/" + g.schemas[g.rng.Intn(len(g.schemas))] + "'"
+	}
+	return g.prim()
+}
+
+var sPropNames = []string{"id", "name", "tag", "count", "created_at", "owner-id", "kind", "ratio", "active", "items", "meta", "note"}
+
+var sPropNamesB = []string{"extra_a", "extra-b", "xc", "x_date", "xflag"}
+
+func (g *sGen) object(depth int, top bool) string { return g.objectFrom(depth, sPropNames, 4) }
+
+func (g *sGen) objectFrom(depth int, sPropNames []string, maxProps int) string {
+	var sb strings.Builder
+	sb.WriteString("type: object\n")
+	n := 1 + g.rng.Intn(maxProps)
+	perm := g.rng.Perm(len(sPropNames))[:n]
+	var req []string
+	props := ""
+	for _, pi := range perm {
+		name := sPropNames[pi]
+		props += "  " + name + ":\n" + indent(g.value(depth), 4)
+		if g.rng.Intn(2) == 0 {
+			req = append(req, name)
+		}
+	}
+	if len(req) > 0 {
+		sb.WriteString("required:\n")
+		for _, r := range req {
+			sb.WriteString("  - " + r + "\n")
+		}
+	}
+	sb.WriteString("properties:\n" + props)
+	switch g.rng.Intn(5) {
+	case 0:
+		sb.WriteString("additionalProperties: true\n")
+	case 1:
+		sb.WriteString("additionalProperties:\n" + indent(g.prim(), 2))
+	}
+	return sb.String()
+}
+
+func (g *sGen) define(name, body string) {
+	g.defs[name] = body
+	g.order = append(g.order, name)
+}
+
+func renderSchemaSpec(g *sGen) string {
+	var sb strings.Builder
+	sb.WriteString("openapi: 3.0.3\ninfo:\n  title: schema family\n  version: 0.0.1\npaths:\n")
+	for i, name := range g.order {
+		fmt.Fprintf(&sb, "  /s%d:\n    post:\n      requestBody:\n        required: true\n        content:\n          application/json:\n            schema:\n              $ref: '#/components/schemas/%s'\n", i, name)
+		fmt.Fprintf(&sb, "      responses:\n        '200':\n          description: ok\n          content:\n            application/json:\n              schema:\n                $ref: '#/components/schemas/%s'\n        default:\n          description: other\n", name)
+	}
+	sb.WriteString("components:\n  schemas:\n")
+	for _, name := range g.order {
+		sb.WriteString("    " + name + ":\n" + indent(g.defs[name], 6))
+	}
+	return sb.String()
+}
+
+func genSchemaFamily(c *Ctx, filter func(string) bool) {
+	n, depth := 24, 1
+	if c.Tier == "thorough" {
+		n, depth = 120, 2
+	}
+	for i := 0; i < n; i++ {
+		name := fmt.Sprintf("s_%03d", i)
+		if filter != nil && !filter(name) {
+			continue
+		}
+		g := &sGen{rng: rand.New(rand.NewSource(c.Seed*15485863 + int64(i)*31 + 7)), defs: map[string]string{}, safe: true}
+		// base objects
+		nb := 1 + g.rng.Intn(2)
+		for k := 0; k < nb; k++ {
+			nm := fmt.Sprintf("Base%d", k)
+			g.define(nm, g.object(depth, true))
+			g.schemas = append(g.schemas, nm)
+		}
+		switch i % 6 {
+		case 0: // allOf [ref, inline]
+			g.define("Combo", "allOf:\n  - $ref: '#/components/schemas/Base0'\n  - "+strings.TrimLeft(indent(g.objectFrom(0, sPropNamesB, 3), 4), " "))
+		case 1: // allOf [inline, ref]
+			g.define("Combo", "allOf:\n  - "+strings.TrimLeft(indent(g.objectFrom(0, sPropNamesB, 3), 4), " ")+"  - $ref: '#/components/schemas/Base0'\n")
+		case 2: // allOf [ref, ref] when two bases
+			if nb > 1 {
+				g.define("Combo", "allOf:\n  - $ref: '#/components/schemas/Base0'\n  - $ref: '#/components/schemas/Base1'\n")
+			}
+		case 3: // oneOf without discriminator over base + primitive
+			g.define("VarA", "type: object\nrequired:\n  - a_only\nproperties:\n  a_only:\n    type: string\n  shared:\n    type: integer\n")
+			g.define("VarB", "type: object\nrequired:\n  - b_only\nproperties:\n  b_only:\n    type: integer\n    format: int64\n  shared:\n    type: integer\n")
+			g.define("Choice", "oneOf:\n  - $ref: '#/components/schemas/VarA'\n  - $ref: '#/components/schemas/VarB'\n")
+		case 4: // array of base
+			g.define("List", "type: array\nitems:\n  $ref: '#/components/schemas/Base0'\n")
+		case 5: // all-optional base embedded first, then inline required
+			g.define("Opt", "type: object\nproperties:\n  label:\n    type: string\n  rank:\n    type: integer\n")
+			g.define("Combo", "allOf:\n  - $ref: '#/components/schemas/Opt'\n  - type: object\n    required:\n      - id\n    properties:\n      id:\n        type: integer\n        format: int64\n")
+		}
+		g.define("Wrapper", g.object(depth, true))
+		u := c.GenPackage(name, "S", []byte(renderSchemaSpec(g)), "", GenFlags{Client: i%2 == 0})
+		_ = u
+	}
+}
